@@ -89,6 +89,21 @@ def run(tier, rng, C):
         cases.append({'id': cid, 'line': G.inv_line(cid, inv, 'all'), 'show': 'inventory of %d nodes, failing: %s' % (nn, sorted(failing)), 'nontrivial': True})
         meta[cid] = (inv, failing)
 
+    # a failing node whose error text is long and not ASCII (a missing class with a long multi-byte name): the
+    # inventory error still names the node
+    for i in range(12 if tier == 'quick' else 200):
+        inv = G.Inv()
+        inv.classes[('c.yml',)] = G.doc([], ['app'], ('m', [(S('v'), I(1))]))
+        unit = rng.choice(['\u65e5', '\u00e4\u00f6\u00fc', 'a\u20ac', '\U0001f600'])
+        long_name = rng.choice(['', 'kunden.', 'x']) + unit * rng.randint(40, 130)
+        inv.nodes[('ok1.yml',)] = G.doc(['c'], [], ('m', []))
+        inv.nodes[('broken.yml',)] = G.doc(['c', long_name], [], ('m', []))
+        inv.nodes[('ok2.yml',)] = G.doc(['c'], ['own'], ('m', []))
+        inv.universe.update(['c', long_name])
+        cid = C.case_id('u', i)
+        cases.append({'id': cid, 'line': G.inv_line(cid, inv, 'all'), 'show': 'node broken includes a missing class with a name of %d multi-byte characters' % (len(long_name)), 'nontrivial': True})
+        meta[cid] = (inv, {'broken'})
+
     # the edge sizes: no node at all (classes only), one node, one node per worker thread +- 1
     for i, nn in enumerate([0, 0, 1, 15, 16, 17, 33]):
         inv = G.Inv()
@@ -164,5 +179,5 @@ def run(tier, rng, C):
     rule = ('%d inventories with 2-10 nodes over shared class graphs, overlapping class/application sets with negations, application names that are also class names of the same node, nodes without classes, one third '
             'with a random subset of failing nodes (missing class, reference loop, malformed reference, a node file that cannot be loaded: wrong field shape, not a mapping, invalid YAML); full render through the index accessor hook; '
             'oracle: indexes = sorted exact inverse of the implementation\'s own per-node lists, nodes = discovered nodes, fails iff '
-            'some node fails and names one; plus inventories of 0, 1, 15-17 and 33 nodes; non-trivial = all' % n)
+            'some node fails and names one; plus inventories of 0, 1, 15-17 and 33 nodes; plus failing nodes with long multi-byte error texts; non-trivial = all' % n)
     return C.standard_run(cases, rule, key_fn=lambda c, m, i, r: 'model-impl-differ', extra_oracle=oracle)
